@@ -61,6 +61,12 @@ static void add_matrix(Output &o, const std::string &name, const amgcl::backend:
     }
 }
 
+static __attribute__((noinline)) void dirty_stack_small(int fill) {
+    volatile unsigned char buf[96 * 1024];
+    for (size_t i = 0; i < sizeof buf; i += 1) buf[i] = (unsigned char)fill;
+    asm volatile("" ::: "memory");
+}
+
 struct World {
     int comp; gen::Csr A, B; std::vector<double> x, y, z; long sub; long k; int sort; int fam;
     long coarsening, relax, solver, coarse_enough, npre, ncycle, power_iters, maxiter, nullspace;
@@ -501,7 +507,7 @@ Result execute(const Plan &p) {
     if (nested) {
         s3 = world(nt, p.sched, [&]() {
             #pragma omp parallel
-            { if (omp_get_thread_num() == omp_get_num_threads() - 1) onest = run_component(w); }
+            { if (omp_get_thread_num() == omp_get_num_threads() - 1) { dirty_stack_small(0x7f); onest = run_component(w); } }      // stale stack content: huge finite doubles
         });
         res.absorb(s3); res.counts["nested_caller_worlds"]++; res.faults["team_smaller_than_max_threads"]++;
     }
